@@ -30,8 +30,12 @@ TRUSTED = [
 ]
 ASSUMPTIONS = ["messages are well-formed JSON-RPC with well-formed params for the methods the server implements"]
 
-UNIMPL_REQ = ["textDocument/hover", "textDocument/completion", "workspace/symbol", "textDocument/definition"]
-UNIMPL_NOTE = ["workspace/didChangeConfiguration", "textDocument/didSave", "$/setTrace", "textDocument/didClose"]
+UNIMPL_REQ = ["textDocument/hover", "textDocument/completion", "workspace/symbol", "textDocument/definition",
+              # protocol-level and made-up methods: a message with an id is a request and is answered, whatever its name
+              "$/cancelRequest", "$/progress", "$/ironplc/status", "workspace/executeCommand", "textDocument/semanticTokens/range",
+              "window/workDoneProgress/create", "x", "textDocument/didOpenX", "initialized"]
+UNIMPL_NOTE = ["workspace/didChangeConfiguration", "textDocument/didSave", "$/setTrace", "textDocument/didClose",
+               "$/cancelRequest", "$/progress", "workspace/didChangeWatchedFiles", "x/y"]
 
 
 def gen_session(rng, ndocs, maxlen):
